@@ -126,7 +126,7 @@ CHECKS["C09"] = {
     "lean_targets": ["Yae.Props.C09"],
     "streams": [
         {"name": "lex", "quick_n": 15000, "thorough_n": 200000,
-         "oracles": ["lex-partition", "lex-word", "lex-longest", "lex-shadowed", "process-crash"]},
+         "oracles": ["lex-partition", "lex-word", "lex-longest", "lex-shadowed", "lex-literal", "process-crash"]},
     ],
     "explanation": "Proved over the model of the lexer: a successful run partitions the input into white-space gaps and non-empty lexemes in order (C09.lex_partition), every token's recorded index range, line and column are exactly those of its place (lex_token_at, lex_token_cursor, lex_ordered, lex_slice), identifier-like operators and true/false are whole words (lex_words), '.' and '?' are not split out of a longer operator (lex_prim), the operator sort is a stable descending-length permutation (sortOps_perm/sorted/stable) and the operator token produced is a longest registered symbolic operator unless punctuation or '.'/'?' comes first (lex_longest; the kernel-checked d25_colon_operator shows the unrestricted sentence is false: finding D25), no fuel exhaustion for non-empty kinds (lex_no_fuel). The ten literal recognisers are tied to Go's regular expressions by the lex stream only (nine kernel-checked instances). Tie: lex stream (exhaustive short strings over a mixed alphabet, random token soups, 13 operator sets; tokens and positions compared) plus implementation-side oracles for partition, whole words, longest match. Literal forms (third session): a formal regular-expression semantics (Spec/Regex: syntax Re with a printer, the declarative language Re.Matches, and a backtracking leftmost-first reference matcher proved sound and complete for the language) and, for each of the ten patterns of the lexicon and for keywordPostfix / idReg, the theorem that the model's hand-written recogniser computes exactly the reference match (Pat.run_eq_matchLen, C09.literal_forms, keyword_form, identOp_form; the greedy-is-leftmost-first claims for the two float patterns and uniqueness of the string match are theorems; for the nine patterns without a nullable loop body the result does not depend on the policy for empty iterations). The pattern TEXTS are read from the Go source on every run and must equal, character for character, the printed form of those expressions (GenTie.Lexer: lex_regex_tie). Property level: lex_literal (a literal token is the leftmost-first match of the first matching pattern and lies in its language), literal_single_token / quoted_single_token / number_single_token / symbol_single_token / lex_number_first / lex_quoted_first (a literal followed by something that cannot continue it is exactly one token), two_exponents (1.5e3e4 lexes as two tokens: rule order, confirmed on the Go lexer). Trusted: that Go's regexp computes the reference semantics on these expressions (lex stream).",
     "assumptions": [],
